@@ -22,7 +22,7 @@ CHUNK_ENV = 'BITSTRING_VERIF_TOFILE_CHUNK_BITS'
 
 def describe(tier):
     q = tier == 'quick'
-    return dict(bounds=dict(contents='all contents of length <= %d; boundary patterns up to %d bits' % (13 if q else 15, 129 if q else 16385), classes=list(CLASSES) + ['Array'],
+    return dict(bounds=dict(contents='all contents of length <= %d; boundary patterns up to %d bits' % (13 if q else 19, 129 if q else 16385), classes=list(CLASSES) + ['Array'],
                             read_windows='every (offset, length) with 0 <= offset <= offset+length <= 8*len(source) and the first out-of-range ones, over all sources of 0..%d bytes '
                                          'from the 5-byte alphabet, through bytes=, BytesIO, file handle and filename=' % (3 if q else 4),
                             large_source='one 200 KiB source: 19 offsets around the 4096- and 65536-byte boundaries and the end x 7 lengths through filename=, handle, bytes=, BytesIO',
@@ -41,7 +41,7 @@ def tob(bits):
 def shards(tier, seed):
     q = tier == 'quick'
     out = []
-    conts = list(families.all_bits(13 if q else 15))
+    conts = list(families.all_bits(13 if q else 19))
     for part in families.chunk(conts, 32 if q else 64):
         out.append(dict(kind='write', conts=part))
     edges = []
@@ -52,7 +52,7 @@ def shards(tier, seed):
     for k in range(0, (3 if q else 4) + 1):
         srcs = list(families.byte_strings(k)) if k else ['']
         if k == 4:
-            srcs = srcs[::7]
+            srcs = srcs[::2]
         for part in families.chunk(srcs, 25 if k >= 2 else 1):
             out.append(dict(kind='read', sources=part))
     for chunk in (8, 64, 72):
